@@ -109,13 +109,18 @@ struct StackOut {
     poisoned: bool,
 }
 
+thread_local! {
+    /// how `finish_run` executes the program (hostile executions replace it)
+    static EXECUTOR: std::cell::Cell<fn(&Prog) -> (ExecResult, Vec<u64>)> = const { std::cell::Cell::new(exec_collect) };
+}
+
 fn finish_run<S>(subscriber: S, storages: &[SharedStorage], prog: &Prog) -> StackOut
 where
     S: Subscriber + Send + Sync + 'static,
 {
     let run = catch_unwind(AssertUnwindSafe(|| {
         tracing::subscriber::with_default(subscriber, || {
-            let (r, raws) = exec_collect(prog);
+            let (r, raws) = EXECUTOR.with(|e| e.get())(prog);
             // snapshots with the remaining handles alive; then the handles go away inside the scope
             let dumps: Vec<Option<String>> = storages.iter().map(|s| dump_shared(s).map(|d| d.0)).collect();
             drop(r);
@@ -185,9 +190,16 @@ fn stack_case(sink: &mut Sink, idx: u64, kind: &str, prog: &Prog, specs: &[Layer
     if !sink.wants(idx) {
         return;
     }
-    let key = format!("{} {}", cprog(prog), clist(specs.iter(), cspec));
     intern_begin();
     let out = run_stack(prog, specs);
+    stack_case_with(sink, idx, kind, prog, specs, out, None);
+}
+
+/// the case for a stack run that has already happened; `other`: a second run of the same stack that
+/// must behave alike (judged too, the case gets the worse verdict: `vworst`, Base/Worst.v)
+fn stack_case_with(sink: &mut Sink, idx: u64, kind: &str, prog: &Prog, specs: &[LayerSpec], out: StackOut, other: Option<StackOut>) {
+    let key = format!("{} {}", cprog(prog), clist(specs.iter(), cspec));
+    intern_begin();
     // the same program under each capture layer alone
     let mut singles = vec![];
     for s in specs {
@@ -202,17 +214,23 @@ fn stack_case(sink: &mut Sink, idx: u64, kind: &str, prog: &Prog, specs: &[Layer
         }
     }
     let raws = if out.panicked { singles_raws(prog) } else { out.raws.clone() };
-    let term = format!(
-        "judge_stack {} {} {} {} {}",
-        cprog(prog),
-        cids(&raws),
-        clist(specs.iter(), cspec),
-        match &out.dumps {
-            Some(ds) => format!("(Some {})", clist(ds.iter(), |d| d.clone())),
-            None => "None".into(),
-        },
-        clist(singles.iter(), |d| copt(d.as_ref(), |t| t.clone()))
-    );
+    let term_of = |o: &StackOut| {
+        format!(
+            "judge_stack {} {} {} {} {}",
+            cprog(prog),
+            cids(&raws),
+            clist(specs.iter(), cspec),
+            match &o.dumps {
+                Some(ds) => format!("(Some {})", clist(ds.iter(), |d| d.clone())),
+                None => "None".into(),
+            },
+            clist(singles.iter(), |d| copt(d.as_ref(), |t| t.clone()))
+        )
+    };
+    let term = match &other {
+        Some(o2) => format!("vworst ({}) ({})", term_of(&out), term_of(o2)),
+        None => term_of(&out),
+    };
     let judge = intern_wrap(&term);
     bump_prog(sink, prog);
     let ncap = specs.iter().filter(|s| matches!(s, LayerSpec::Capture(_))).count();
@@ -242,6 +260,131 @@ fn stack_case(sink: &mut Sink, idx: u64, kind: &str, prog: &Prog, specs: &[Layer
             "storages": out.dumps, "single_layer_storages": singles,
         })
     });
+}
+
+// ---- hostile renderings ---------------------------------------------------------------------------
+
+const LOUD: &str = "Loud (logs while it is rendered)";
+const BOMB: &str = "Bomb (panics while it is rendered)";
+
+/// Executes a program whose `Debug` values misbehave: rendering `LOUD` emits an event on call site 1,
+/// rendering `BOMB` panics (the guest catches its own panic).  An operation that panicked is skipped.
+fn exec_hostile(prog: &Prog) -> (ExecResult, Vec<u64>) {
+    let sites = make_sites(&prog.sites);
+    let inner = sites[1];
+    DEBUG_EFFECT.with(|e| {
+        *e.borrow_mut() = Some((LOUD.to_owned(), Box::new(move || {
+            if inner.is_enabled() {
+                with_value_set(inner, &[], |vs| tracing::Event::dispatch(inner.metadata(), vs));
+            }
+        })));
+    });
+    let mut r = ExecResult::default();
+    let mut raws = vec![];
+    for (_, op) in &prog.ops {
+        let bomb = match op {
+            Op::Record(_, vals) | Op::Event(_, _, vals) | Op::NewSpan(_, _, vals) => {
+                vals.iter().any(|(_, p)| matches!(p, Some(Prim::Debug(o)) if o.debug == BOMB))
+            }
+            _ => false,
+        };
+        if bomb {
+            DEBUG_EFFECT.with(|e| *e.borrow_mut() = Some((BOMB.to_owned(), Box::new(|| std::panic::resume_unwind(Box::new("guest Debug impl panics"))))));
+            let _ = catch_unwind(AssertUnwindSafe(|| exec_op(&mut r, &sites, op)));
+            DEBUG_EFFECT.with(|e| *e.borrow_mut() = None);
+        } else {
+            exec_op(&mut r, &sites, op);
+        }
+        r.ops_run += 1;
+        if let Op::NewSpan(..) = op {
+            let id = r.handles.last().and_then(|hs| hs.first()).and_then(tracing::Span::id);
+            raws.push(id.map_or(0, |i| i.into_u64()));
+        }
+    }
+    DEBUG_EFFECT.with(|e| *e.borrow_mut() = None);
+    (r, raws)
+}
+
+/// `hostile`: the program the guest runs, with misbehaving `Debug` values; `quiet`: the program whose
+/// trace it must be captured as (the event emitted while a recorded value is rendered comes first;
+/// an operation whose value panics while it is rendered is not captured).  One capture layer that
+/// captures everything, pass-through layers around it.  The hostile run happens on a thread of its
+/// own under a watchdog: a callback that never returns (re-entering the layer under its own lock)
+/// shows as a missing storage.
+fn hostile_case(sink: &mut Sink, idx: u64, kind: &str, hostile: &Prog, quiet: &Prog, specs: &[LayerSpec]) {
+    if !sink.wants(idx) {
+        return;
+    }
+    let (h, sp) = (hostile.clone(), specs.to_vec());
+    let (tx, rx) = std::sync::mpsc::channel();
+    std::thread::spawn(move || {
+        EXECUTOR.with(|e| e.set(exec_hostile));
+        let out = run_stack(&h, &sp);
+        let _ = tx.send(out);
+    });
+    let out = rx.recv_timeout(std::time::Duration::from_secs(5)).ok();
+    sink.bump(match &out {
+        None => "hostile:callback-never-returned",
+        Some(o) if o.poisoned => "hostile:storage-poisoned",
+        Some(o) if o.panicked => "hostile:panic-escaped",
+        Some(_) => "hostile:completed",
+    });
+    let quiet_out = run_stack(quiet, specs);
+    let differs = out.as_ref().map_or(true, |o| o.dumps.is_none() || o.dumps != quiet_out.dumps);
+    if differs {
+        sink.bump("hostile:DIFFERS-from-the-quiet-program");
+    }
+    // both runs are judged against the quiet program; the case gets the worse verdict
+    let hostile_out = if differs {
+        Some(out.unwrap_or(StackOut { dumps: None, raws: vec![], panicked: true, poisoned: true }))
+    } else {
+        None
+    };
+    stack_case_with(sink, idx, kind, quiet, specs, quiet_out, hostile_out);
+}
+
+fn hostile_cases(sink: &mut Sink, idx: &mut u64) {
+    let t = "guest::c16::hostile";
+    let sites = vec![
+        base::site(tracing_tunnel::CallSiteKind::Span, "work", t, TracingLevel::Info, &["a", "b"]),
+        base::site(tracing_tunnel::CallSiteKind::Event, "event src/hostile.rs:1", t, TracingLevel::Info, &[]),
+        base::site(tracing_tunnel::CallSiteKind::Event, "event src/hostile.rs:2", t, TracingLevel::Warn, &["v"]),
+    ];
+    let dbg = |text: &str| Some(Prim::Debug(Obj { display: "-".into(), debug: text.to_owned() }));
+    let prog = |ops: Vec<Op>| Prog { sites: sites.clone(), ops: ops.into_iter().map(|o| (0usize, o)).collect() };
+    let span = || Op::NewSpan(0, ParentKind::Ctx, vec![]);
+    let inner = || Op::Event(1, ParentKind::Ctx, vec![]);
+    let scenarios: Vec<(&str, Prog, Prog)> = vec![
+        (
+            "loud-record",
+            prog(vec![span(), Op::Record(0, vec![(0, dbg(LOUD))]), inner(), Op::Drop(0)]),
+            prog(vec![span(), inner(), Op::Record(0, vec![(0, dbg(LOUD))]), inner(), Op::Drop(0)]),
+        ),
+        (
+            "loud-record-inside-the-span",
+            prog(vec![span(), Op::Enter(0), Op::Record(0, vec![(1, dbg(LOUD)), (0, Some(Prim::Bool(true)))]), Op::Exit(0), Op::Drop(0)]),
+            prog(vec![span(), Op::Enter(0), inner(), Op::Record(0, vec![(1, dbg(LOUD)), (0, Some(Prim::Bool(true)))]), Op::Exit(0), Op::Drop(0)]),
+        ),
+        (
+            "bomb-event",
+            prog(vec![span(), Op::Enter(0), Op::Event(2, ParentKind::Ctx, vec![(0, dbg(BOMB))]), inner(), Op::Exit(0), Op::Drop(0)]),
+            prog(vec![span(), Op::Enter(0), inner(), Op::Exit(0), Op::Drop(0)]),
+        ),
+        (
+            "bomb-record",
+            prog(vec![span(), Op::Record(0, vec![(0, dbg(BOMB))]), inner(), Op::Record(0, vec![(1, Some(Prim::Bool(false)))]), Op::Drop(0)]),
+            prog(vec![span(), inner(), Op::Record(0, vec![(1, Some(Prim::Bool(false)))]), Op::Drop(0)]),
+        ),
+    ];
+    for (name, hostile, quiet) in &scenarios {
+        for specs in [
+            vec![LayerSpec::Capture(FilterSpec::Unfiltered)],
+            vec![LayerSpec::Pass(PassKind::Extensions), LayerSpec::Capture(FilterSpec::Unfiltered), LayerSpec::Pass(PassKind::Plain)],
+        ] {
+            hostile_case(sink, *idx, &format!("hostile-{name}"), hostile, quiet, &specs);
+            *idx += 1;
+        }
+    }
 }
 
 /// the ids a fresh Registry issues for this program (used when the stack run panicked)
@@ -380,6 +523,9 @@ pub fn run(o: &Opts) {
         }
         idx += 1;
     }
+
+    // 2c. hostile renderings: values that log or panic while the layer renders them
+    hostile_cases(&mut sink, &mut idx);
 
     // 3. random programs x random stacks: 1-3 capture layers with independent random filters; pass-through
     //    layers inserted at random positions (each of the n+1 positions with probability 1/2, at least one
